@@ -18,7 +18,8 @@ FAILED src/ecdsa/test_jacobi.py::TestJacobi::test_add_different_scale_points
 FAILED src/ecdsa/test_jacobi.py::TestJacobi::test_add_one_scaled_point
 EOB
 tail -1 "$out"
-new=$(comm -23 "$out.fail" "$out.base" | grep -v 'test_ecdsa.py::test_sig_verify' | sed -e 's/^[A-Z]* //')
+# hypothesis-driven tests that are flaky on the pinned, unmodified tree (they fail whenever hypothesis draws multiplier == order)
+new=$(comm -23 "$out.fail" "$out.base" | grep -v -e 'test_ecdsa.py::test_sig_verify' -e 'test_jacobi.py::TestJacobi::test_add_same_scale_points' -e 'test_ellipticcurve.py::test_p192_mult_tests' | sed -e 's/^[A-Z]* //')
 still=""
 for t in $new; do
   ok=0
